@@ -131,7 +131,7 @@ Print Assumptions C05_head_completed_write_readable_refuted.
 Theorem C05_head_coll_coherent_partial :
   forall (n : nat) (N0 : Z) (ops : list Numrecs.op),
          (0 <= N0)%Z ->
-         Numrecs.hist_allb Numrecs.commit_loop Numrecs.head_ok (Numrecs.init n N0) ops = true ->
+         Numrecs.hist_allb Numrecs.commit_loop true Numrecs.head_ok (Numrecs.init n N0) ops = true ->
          let st := Numrecs.run_head (Numrecs.init n N0) ops in
          Numrecs.indep st = false ->
          forall r : Numrecs.rk,
@@ -143,8 +143,8 @@ Print Assumptions C05_head_coll_coherent_partial.
 Theorem C05_head_indep_then_sync_partial :
   forall (n : nat) (N0 : Z) (ops : list Numrecs.op) (o : Numrecs.op) (ops2 : list Numrecs.op),
          (0 <= N0)%Z ->
-         Numrecs.hist_allb Numrecs.commit_loop Numrecs.head_ok (Numrecs.init n N0) (ops ++ o :: ops2) =
-         true ->
+         Numrecs.hist_allb Numrecs.commit_loop true Numrecs.head_ok (Numrecs.init n N0)
+           (ops ++ o :: ops2) = true ->
          sync_op o = true ->
          Numrecs.hung (Numrecs.run_head (Numrecs.init n N0) ops) = false ->
          Numrecs.indef (Numrecs.run_head (Numrecs.init n N0) ops) = false ->
@@ -159,7 +159,7 @@ Print Assumptions C05_head_indep_then_sync_partial.
 Theorem C05_head_completed_write_readable_partial :
   forall (n : nat) (N0 : Z) (ops : list Numrecs.op),
          (0 <= N0)%Z ->
-         Numrecs.hist_allb Numrecs.commit_loop Numrecs.head_ok (Numrecs.init n N0) ops = true ->
+         Numrecs.hist_allb Numrecs.commit_loop true Numrecs.head_ok (Numrecs.init n N0) ops = true ->
          let st := Numrecs.run_head (Numrecs.init n N0) ops in
          (forall r : Numrecs.rk, In r (Numrecs.ranks st) -> (Numrecs.g_own r <= Numrecs.numrecs r)%Z) /\
          (Numrecs.indep st = false ->
@@ -186,12 +186,13 @@ Theorem C05_ex_f1_witness_head :
          map Numrecs.numrecs (Numrecs.ranks st) = 0%Z :: 0%Z :: nil /\
          Numrecs.hdr st = 0%Z /\
          Numrecs.written st = 6%Z /\
-         Numrecs.hist_allb Numrecs.commit_loop Numrecs.head_ok (Numrecs.init 2 0) f1_witness = false.
+         Numrecs.hist_allb Numrecs.commit_loop true Numrecs.head_ok (Numrecs.init 2 0) f1_witness =
+         false.
 Proof. exact @f1_witness_head. Qed.
 Print Assumptions C05_ex_f1_witness_head.
 
 Theorem C05_ex_partial_hypothesis :
-  Numrecs.hist_allb Numrecs.commit_loop Numrecs.head_ok (Numrecs.init 3 0) subset_ok_hist =
+  Numrecs.hist_allb Numrecs.commit_loop true Numrecs.head_ok (Numrecs.init 3 0) subset_ok_hist =
          true /\
          (let st := Numrecs.run_head (Numrecs.init 3 0) subset_ok_hist in
           map Numrecs.numrecs (Numrecs.ranks st) = 10%Z :: 10%Z :: 10%Z :: nil /\
@@ -216,3 +217,68 @@ Theorem C05_ex_indep_then_sync :
          5%Z :: 5%Z :: nil.
 Proof. exact @indep_then_sync_ex. Qed.
 Print Assumptions C05_ex_indep_then_sync.
+
+Theorem C05_noerange_coll_coherent_refuted :
+  ~ coll_coherent_noerange_full.
+Proof. exact @coll_coherent_noerange_refuted. Qed.
+Print Assumptions C05_noerange_coll_coherent_refuted.
+
+Theorem C05_noerange_indep_then_sync_refuted :
+  ~ indep_then_sync_noerange_full.
+Proof. exact @indep_then_sync_noerange_refuted. Qed.
+Print Assumptions C05_noerange_indep_then_sync_refuted.
+
+Theorem C05_noerange_completed_write_readable_refuted :
+  ~ completed_write_readable_noerange_full.
+Proof. exact @completed_write_readable_noerange_refuted. Qed.
+Print Assumptions C05_noerange_completed_write_readable_refuted.
+
+Theorem C05_noerange_coll_coherent_partial :
+  forall (n : nat) (N0 : Z) (ops : list Numrecs.op),
+         (0 <= N0)%Z ->
+         Numrecs.hist_allb Numrecs.commit_fixed false Numrecs.erange_free (Numrecs.init n N0) ops =
+         true ->
+         let st := Numrecs.run_noerange (Numrecs.init n N0) ops in
+         Numrecs.indep st = false ->
+         forall r : Numrecs.rk,
+         In r (Numrecs.ranks st) ->
+         Numrecs.numrecs r = Numrecs.hdr st /\ Numrecs.hdr st = Z.max N0 (Numrecs.written st).
+Proof. exact @coll_coherent_noerange_partial. Qed.
+Print Assumptions C05_noerange_coll_coherent_partial.
+
+Theorem C05_noerange_completed_write_readable_partial :
+  forall (n : nat) (N0 : Z) (ops : list Numrecs.op),
+         (0 <= N0)%Z ->
+         Numrecs.hist_allb Numrecs.commit_fixed false Numrecs.erange_free (Numrecs.init n N0) ops =
+         true ->
+         let st := Numrecs.run_noerange (Numrecs.init n N0) ops in
+         (forall r : Numrecs.rk, In r (Numrecs.ranks st) -> (Numrecs.g_own r <= Numrecs.numrecs r)%Z) /\
+         (Numrecs.indep st = false ->
+          forall r : Numrecs.rk,
+          In r (Numrecs.ranks st) -> (Numrecs.written st <= Numrecs.numrecs r)%Z).
+Proof. exact @completed_write_readable_noerange_partial. Qed.
+Print Assumptions C05_noerange_completed_write_readable_partial.
+
+Theorem C05_noerange_coll_agree :
+  forall (n : nat) (N0 : Z) (ops : list Numrecs.op),
+         (0 <= N0)%Z ->
+         let st := Numrecs.run_noerange (Numrecs.init n N0) ops in
+         (Numrecs.indep st = false ->
+          forall r : Numrecs.rk, In r (Numrecs.ranks st) -> Numrecs.numrecs r = Numrecs.hdr st) /\
+         (forall r : Numrecs.rk,
+          In r (Numrecs.ranks st) ->
+          (Numrecs.hdr st <= Numrecs.numrecs r <= Z.max N0 (Numrecs.written st))%Z) /\
+         (N0 <= Numrecs.hdr st <= Z.max N0 (Numrecs.written st))%Z.
+Proof. exact @coll_agree_noerange. Qed.
+Print Assumptions C05_noerange_coll_agree.
+
+Theorem C05_ex_erange_counts :
+  let st := Numrecs.run_fixed (Numrecs.init 2 0) erange_witness in
+         map Numrecs.numrecs (Numrecs.ranks st) = 4%Z :: 4%Z :: nil /\
+         Numrecs.hdr st = 4%Z /\
+         Numrecs.written st = 4%Z /\
+         (let st' := Numrecs.run_noerange (Numrecs.init 2 0) erange_witness in
+          map Numrecs.numrecs (Numrecs.ranks st') = 0%Z :: 0%Z :: nil /\
+          Numrecs.hdr st' = 0%Z /\ Numrecs.written st' = 4%Z).
+Proof. exact @erange_counts_ex. Qed.
+Print Assumptions C05_ex_erange_counts.
